@@ -123,6 +123,65 @@ fn opt(o: Option<usize>) -> String {
     }
 }
 
+/// PTEXT id text : the real lexer and the real parser on source TEXT; result: `ok <shape> | <positions>` where <shape> is the tree as an
+/// s-expression of definitions, and <positions> the (row,col) of the lex token of every node in in-order
+pub fn ptext_case(f: &[&str]) -> String {
+    if f.len() < 3 {
+        return "BAD-CASE".to_string();
+    }
+    let text = unescape(f[2]);
+    let tokens = match garnish_lang_compiler::lex::lex(&text) {
+        Ok(t) => t,
+        Err(_) => return "lexerr".to_string(),
+    };
+    let r = match parse(&tokens) {
+        Ok(r) => r,
+        Err(_) => return "parseerr".to_string(),
+    };
+    let nodes = r.get_nodes();
+    if nodes.is_empty() {
+        return "ok - |".to_string();
+    }
+    // iterative in-order walk with a visit budget (improper trees must not hang the harness)
+    let mut shape = String::new();
+    let mut pos: Vec<String> = vec![];
+    let mut budget = 4 * nodes.len() + 8;
+    fn walk(i: usize, nodes: &Vec<garnish_lang_compiler::parse::ParseNode>, shape: &mut String, pos: &mut Vec<String>, budget: &mut usize, depth: usize) -> bool {
+        if *budget == 0 || depth > 4000 {
+            return false;
+        }
+        *budget -= 1;
+        let n = match nodes.get(i) {
+            Some(n) => n,
+            None => return false,
+        };
+        shape.push('(');
+        shape.push_str(&format!("{:?}", n.get_definition()));
+        shape.push(' ');
+        let ok_l = match n.get_left() {
+            Some(l) => walk(l, nodes, shape, pos, budget, depth + 1),
+            None => {
+                shape.push('-');
+                true
+            }
+        };
+        let t = n.get_lex_token();
+        pos.push(format!("{}:{}", t.get_line(), t.get_column()));
+        shape.push(' ');
+        let ok_r = match n.get_right() {
+            Some(rr) => walk(rr, nodes, shape, pos, budget, depth + 1),
+            None => {
+                shape.push('-');
+                true
+            }
+        };
+        shape.push(')');
+        ok_l && ok_r
+    }
+    let ok = walk(r.get_root(), nodes, &mut shape, &mut pos, &mut budget, 0);
+    format!("{} {} | {}", if ok { "ok" } else { "improper" }, shape, pos.join(","))
+}
+
 pub fn parse_case(f: &[&str]) -> String {
     let mut fields = &f[2..];
     let mut errclass = false;
